@@ -6,7 +6,11 @@ import traceback
 
 from vlib import ws, wsscript
 
+import os
 job = json.load(sys.stdin)
+if os.environ.get("AUTOBAHN_USE_NVX") == "1":
+    import _nvx_utf8validator, _nvx_xormasker
+    assert _nvx_xormasker.__file__.startswith(sys.path[0]) or "abverif-nvx" in _nvx_xormasker.__file__, _nvx_xormasker.__file__
 env = ws.setup(job["fw"])
 r = wsscript.Runner(env)
 res = []
